@@ -1,9 +1,9 @@
 (* C20 -- source facts.  The machines and monitors this property rests on were written against, and validated on,
    these definitions of /repo; tools/srcfacts.py regenerates their normal-form digests on every run (coq/Gen/Src_*.v).
-   Statements only. *)
+   Statements only.  Written by `tools/srcfacts.py --props` from PROP_MODULES. *)
 From Coq Require Import List String.
-From ME Require Import Model.SrcExpected Gen.Src_metrics Gen.Src_retry Gen.Src_throttle Gen.Src_metrics_prom Gen.Src_poll Gen.Src_timeout Gen.Src_map Gen.Src_flat_map Gen.Src_cos Gen.Src_sync Gen.Src_common
-  Proofs.Src_ok_metrics Proofs.Src_ok_retry Proofs.Src_ok_throttle Proofs.Src_ok_metrics_prom Proofs.Src_ok_poll Proofs.Src_ok_timeout Proofs.Src_ok_map Proofs.Src_ok_flat_map Proofs.Src_ok_cos Proofs.Src_ok_sync Proofs.Src_ok_common.
+From ME Require Import Model.SrcExpected Gen.Src_metrics Gen.Src_retry Gen.Src_throttle Gen.Src_metrics_prom Gen.Src_poll Gen.Src_timeout Gen.Src_map Gen.Src_flat_map Gen.Src_cos Gen.Src_sync Gen.Src_common Gen.Src_logwrap Gen.Src_metrics_null
+  Proofs.Src_ok_metrics Proofs.Src_ok_retry Proofs.Src_ok_throttle Proofs.Src_ok_metrics_prom Proofs.Src_ok_poll Proofs.Src_ok_timeout Proofs.Src_ok_map Proofs.Src_ok_flat_map Proofs.Src_ok_cos Proofs.Src_ok_sync Proofs.Src_ok_common Proofs.Src_ok_logwrap Proofs.Src_ok_metrics_null.
 
 (* more_executors/_impl/metrics/__init__.py *)
 Theorem c20_source_metrics : Src_metrics.facts = expected_metrics.
@@ -38,6 +38,12 @@ Proof. exact src_sync_ok. Qed.
 (* more_executors/_impl/common.py *)
 Theorem c20_source_common : Src_common.facts = expected_common.
 Proof. exact src_common_ok. Qed.
+(* more_executors/_impl/logwrap.py *)
+Theorem c20_source_logwrap : Src_logwrap.facts = expected_logwrap.
+Proof. exact src_logwrap_ok. Qed.
+(* more_executors/_impl/metrics/null.py *)
+Theorem c20_source_metrics_null : Src_metrics_null.facts = expected_metrics_null.
+Proof. exact src_metrics_null_ok. Qed.
 
 Print Assumptions c20_source_metrics.
 Print Assumptions c20_source_retry.
@@ -50,3 +56,5 @@ Print Assumptions c20_source_flat_map.
 Print Assumptions c20_source_cos.
 Print Assumptions c20_source_sync.
 Print Assumptions c20_source_common.
+Print Assumptions c20_source_logwrap.
+Print Assumptions c20_source_metrics_null.
